@@ -1547,6 +1547,7 @@ structure RangeOK (L : List NsHash) (r : NsHash) : Prop where
   minMem : ∃ x ∈ L, r.minNs = x.minNs
   maxGe : ∀ x ∈ L, x.minNs ≠ maxNsId → leB x.minNs r.maxNs = true
   maxAll : (∀ x ∈ L, x.minNs = maxNsId) → r.maxNs = maxNsId
+  maxNotAll : (∃ x ∈ L, x.minNs ≠ maxNsId) → r.maxNs ≠ maxNsId
   maxMem : ∃ x ∈ L, leB r.maxNs x.minNs = true
   minMax : leB r.minNs r.maxNs = true
 
@@ -1584,7 +1585,8 @@ theorem range_node {H : HashFn} {L : List NsHash} {k : Nat} {l rr r : NsHash} (h
     by_cases cA : (l.minNs == maxNsId) = true
     · have hA : l.minNs = maxNsId := by simpa using cA
       simp only [cA, ↓reduceIte]
-      refine ⟨hminLe, ⟨xl, (hmemL xl).mpr (Or.inl hxl), hxle⟩, ?_, fun _ => rfl, ?_, ?_⟩
+      refine ⟨hminLe, ⟨xl, (hmemL xl).mpr (Or.inl hxl), hxle⟩, ?_, fun _ => rfl,
+        (fun ⟨x, hx, hne'⟩ => absurd (eq_maxNsId_of_le (hleaf x hx).2 (by rw [← hA]; exact hminLe x hx)) hne'), ?_, ?_⟩
       · intro x hx _; exact leB_maxNsId NS_SIZE _ (hleaf x hx).2
       · exact ⟨xl, (hmemL xl).mpr (Or.inl hxl), by rw [← hxle, hA]; exact leB_refl _⟩
       · rw [hA]; exact leB_refl _
@@ -1595,7 +1597,11 @@ theorem range_node {H : HashFn} {L : List NsHash} {k : Nat} {l rr r : NsHash} (h
       by_cases cB : (rr.minNs == maxNsId) = true
       · have hB : rr.minNs = maxNsId := by simpa using cB
         simp only [cB, ↓reduceIte]
-        refine ⟨hminLe, ⟨xl, (hmemL xl).mpr (Or.inl hxl), hxle⟩, ?_, fun h => absurd h notAll, ?_, RL.minMax⟩
+        refine ⟨hminLe, ⟨xl, (hmemL xl).mpr (Or.inl hxl), hxle⟩, ?_, fun h => absurd h notAll,
+          (fun ⟨x, hx, hne'⟩ => by
+            rcases (hmemL x).mp hx with h | h
+            · exact RL.maxNotAll ⟨x, h, hne'⟩
+            · exact absurd (hdropMax hB x h) hne'), ?_, RL.minMax⟩
         · intro x hx hne'
           rcases (hmemL x).mp hx with h | h
           · exact RL.maxGe x h hne'
@@ -1603,7 +1609,11 @@ theorem range_node {H : HashFn} {L : List NsHash} {k : Nat} {l rr r : NsHash} (h
         · obtain ⟨y, hy, hyl⟩ := RL.maxMem
           exact ⟨y, (hmemL y).mpr (Or.inl hy), hyl⟩
       · simp only [cB, Bool.false_eq_true, ↓reduceIte]
-        refine ⟨hminLe, ⟨xl, (hmemL xl).mpr (Or.inl hxl), hxle⟩, ?_, fun h => absurd h notAll, ?_, ?_⟩
+        refine ⟨hminLe, ⟨xl, (hmemL xl).mpr (Or.inl hxl), hxle⟩, ?_, fun h => absurd h notAll,
+          (fun _ => by
+            rcases maxB_cases l.maxNs rr.maxNs with h | h
+            · rw [h]; exact RL.maxNotAll ⟨xl, hxl, by rw [← hxle]; exact hA⟩
+            · rw [h]; exact RR.maxNotAll ⟨xr, hxr, by rw [← hxre]; simpa using cB⟩), ?_, ?_⟩
         · intro x hx hne'
           rcases (hmemL x).mp hx with h | h
           · exact leB_trans (RL.maxGe x h hne') (leB_maxB_left _ _)
@@ -1628,7 +1638,9 @@ theorem computeRootAux_range {H : HashFn} : ∀ (fuel : Nat) {L : List NsHash} {
       simp [computeRootAux] at e
       subst e
       obtain ⟨h1, h2⟩ := hleaf x (by simp)
-      refine ⟨?_, ⟨x, by simp, rfl⟩, ?_, ?_, ⟨x, by simp, by rw [← h1]; exact leB_refl _⟩, by rw [← h1]; exact leB_refl _⟩
+      refine ⟨?_, ⟨x, by simp, rfl⟩, ?_, ?_,
+        (fun ⟨y, hy, hne'⟩ => by simp at hy; subst hy; rw [← h1]; exact hne'),
+        ⟨x, by simp, by rw [← h1]; exact leB_refl _⟩, by rw [← h1]; exact leB_refl _⟩
       · intro y hy; simp at hy; subst hy; exact leB_refl _
       · intro y hy _; simp at hy; subst hy; rw [← h1]; exact leB_refl _
       · intro h; rw [← h1]; exact h x (by simp)
